@@ -733,6 +733,117 @@ func (g *gen) emptyQueuedResent(w *world, k int) {
 	g.peerRestart(w)
 }
 
+// C18 / C13: the randomness source fails exactly in the call that receives the peer's disconnect, and that
+// message asks for a key rotation (the peer has seen our newest key). The message is authentic and accepted:
+// whatever the rotation does, the conversation has ended — it must not stay encrypted towards a peer that left.
+func (g *gen) disconnectUnderRandFailure(w *world, k int) {
+	w.parties = map[string]*party{}
+	w.dead = false
+	version := 2 + k%2
+	pol := 2
+	if version == 3 {
+		pol = 4
+	}
+	a := w.newParty(partyCfg{policies: pol, keyIdx: 0, errh: k%4 < 2})
+	b := w.newParty(partyCfg{policies: pol, keyIdx: 1, errh: true})
+	l := &link{w: w, a: a, b: b}
+	l.enqueue(b, []otr3.ValidMessage{w.query(b)})
+	l.settle(40)
+	if !a.c.IsEncrypted() || !b.c.IsEncrypted() || w.dead {
+		return
+	}
+	g.dist["lifecycle-disconnect-under-rand-failure"]++
+	// a few rounds so that the peer's next message acknowledges our newest key (a rotation is due on receipt)
+	for i := 0; i < 1+k%3; i++ {
+		ts, _ := w.send(a, g.cleanText())
+		l.enqueue(a, ts)
+		l.settle(10)
+		if i < k%3 {
+			ts, _ = w.send(b, g.cleanText())
+			l.enqueue(b, ts)
+			l.settle(10)
+		}
+	}
+	ts, _ := w.end(b)
+	l.enqueue(b, ts)
+	a.rnd.failAt = a.rnd.reads
+	l.settle(5)
+	a.rnd.failAt = -1
+	if w.dead {
+		return
+	}
+	olog.ok("C18")
+	olog.ok("C13")
+	if a.c.IsEncrypted() {
+		olog.viol("C18", "peer-disconnect-lost", fmt.Sprintf("OTRv%d: the peer ended the conversation; the call that received its disconnect message could not draw randomness for the key rotation the message asked for; the conversation is still encrypted (towards a peer that has left)", version))
+		olog.viol("C13", "randomness-failure-loses-disconnect", fmt.Sprintf("OTRv%d: a failing randomness read while the peer's disconnect is received leaves the conversation encrypted", version))
+	}
+}
+
+// C18: the randomness source fails in the very call that completes the key exchange (the side is encrypted, GoneSecure
+// was raised, but it may hold no key to send with until the peer speaks). Whatever else fails, End() ends the
+// conversation: not encrypted afterwards, and Send follows the plaintext policy again (the text goes out as it is).
+// Sweep: the d-th delivery to a, the j-th randomness read of that call; the combinations that leave a encrypted with
+// an error returned are the ones judged.
+func (g *gen) endAfterFailedCompletion(w *world, k int) {
+	version := 2 + k%2
+	pol := 2
+	if version == 3 {
+		pol = 4
+	}
+	for d := 0; d < 3; d++ {
+		for j := 0; j < 3; j++ {
+			w.parties = map[string]*party{}
+			w.dead = false
+			a := w.newParty(partyCfg{policies: pol, keyIdx: 0, errh: (k+j)%2 == 0})
+			b := w.newParty(partyCfg{policies: pol, keyIdx: 1, errh: true})
+			l := &link{w: w, a: a, b: b}
+			if (k/2)%2 == 0 {
+				l.enqueue(b, []otr3.ValidMessage{w.query(b)}) // a completes on the Signature message
+			} else {
+				l.enqueue(a, []otr3.ValidMessage{w.query(a)}) // a completes on the Reveal Signature message
+			}
+			toA := 0
+			var failedErr error
+			for i := 0; i < 40 && (len(l.qab) > 0 || len(l.qba) > 0) && !w.dead; i++ {
+				if len(l.qab) > 0 {
+					l.deliver(true)
+				}
+				if len(l.qba) > 0 {
+					if toA == d {
+						a.rnd.failAt = a.rnd.reads + j
+						m := l.qba[0]
+						l.qba = l.qba[1:]
+						_, ts, err, _ := w.recv(a, m)
+						l.enqueue(a, ts)
+						failedErr = err
+						a.rnd.failAt = -1
+						toA++
+						break
+					}
+					l.deliver(false)
+					toA++
+				}
+			}
+			if w.dead || failedErr == nil || !a.c.IsEncrypted() {
+				continue
+			}
+			g.dist["lifecycle-end-after-failed-completion"]++
+			w.end(a)
+			olog.ok("C18")
+			if a.c.IsEncrypted() {
+				olog.viol("C18", "end-leaves-session-open", fmt.Sprintf("OTRv%d: the randomness source failed in the call that completed the key exchange (delivery %d to this side, read %d of the call: %v); the side is encrypted; End() was called and the conversation is still encrypted", version, d, j, failedErr))
+				continue
+			}
+			text := g.cleanText()
+			ts, err := w.send(a, text)
+			if err != nil || len(ts) != 1 || !bytes.HasPrefix(ts[0], text) {
+				olog.viol("C18", "send-after-end-not-plain", fmt.Sprintf("OTRv%d: after End() (following a key exchange whose completing call could not draw randomness) Send(%q) returned %d messages, err %v — the plaintext policy says the text goes out as it is", version, text, len(ts), err))
+			}
+		}
+	}
+}
+
 // C18: the peer loses its state (the client was restarted; same key, same instance tag), reports our
 // last message unreadable, and the key exchange this triggers brings the message to it once, marked
 func (g *gen) peerRestart(w *world) {
@@ -897,6 +1008,12 @@ func init() {
 		}
 		for k := 0; k < 2+n/8; k++ {
 			g.emptyQueuedResent(w, k)
+		}
+		for k := 0; k < 4+n/4; k++ {
+			g.disconnectUnderRandFailure(w, k)
+		}
+		for k := 0; k < 4; k++ {
+			g.endAfterFailedCompletion(w, k)
 		}
 		extra["panics"] = panicCount
 		olog.export(extra)
